@@ -5,6 +5,12 @@
            (has_size no longer influences anything since 381463f; kept in the encoding, ignored)
            [1; ignore_warnings; chns; chnc; nc; fs_m; fs_e; has_fts; fts_m; fts_e]   mtscomp branch (.ch announces chns x chnc)
            floats are passed exactly as m * 2^e
+           [2; online; ignore_warnings; nc; fs_m; fs_e; has_fts; fts_m; fts_e; size0; open_flag; (opcode; arg)*]
+               a history on one reader object: constructor on a file of size0 bytes (open=open_flag), then
+               operations  0 n = the file now has n bytes,  1 _ = sr.open(),  2 _ = sr.__enter__()
+               output: one snapshot after the constructor and after every operation:
+               [open attempt: 9 none / 0 opened, warned / 1 / 2 / 3; -]  ++ [live sr.ns: 0 n / 2 0 / 3 0]
+               ++ [frames of the mapped array or -1] ++ enc(meta fileTimeSecs) ++ enc(sr.rl) (class 9 if ns raises)
    output: [0; ns; nc; warned] ++ enc(meta fileTimeSecs afterwards) ++ enc(rl)    opened
            (warned = the mismatch warning was logged = fileTimeSecs rewritten and not ignore_warnings)
            [1] memmap ValueError   [2] int() of inf/nan   [3] TypeError (no fileTimeSecs)
@@ -39,6 +45,26 @@ Definition enc_outcome (iw : bool) (fs : b64) (o : outcome) : list Z :=
 Definition dec_fts (has m e : Z) : option b64 :=
   if has =? 1 then Some (of_me m e) else None.
 
+Fixpoint dec_ops (l : list Z) : list op :=
+  match l with
+  | c :: a :: tl => (if c =? 0 then OpResize a else if c =? 1 then OpOpen else OpEnter) :: dec_ops tl
+  | _ => []
+  end.
+
+Definition enc_snap (iw : bool) (s : (Z * reader) * option outcome) : list Z :=
+  let '((cur, r), out) := s in
+  (match out with
+   | None => [9; 0]
+   | Some (Opened _ _ _ rw) => [0; enc_bool (rw && negb iw)]
+   | Some MmapError => [1; 0]
+   | Some IntError => [2; 0]
+   | Some TypeErr => [3; 0]
+   end)
+  ++ (match live_ns cur r with NsOk n => [0; n] | NsInt => [2; 0] | NsType => [3; 0] end)
+  ++ [match r_mapped r with Some m => m | None => -1 end]
+  ++ enc_ofloat (r_fts r)
+  ++ (match live_ns cur r with NsOk n => enc_float (rl n (r_fs r)) | _ => [9; 0; 0; 0] end).
+
 Definition run (inp : list Z) : list Z :=
   match inp with
   | [0; online; iw; hsz; nbytes; nc; fsm; fse; has; ftm; fte] =>
@@ -47,6 +73,9 @@ Definition run (inp : list Z) : list Z :=
   | [1; iw; chns; chnc; nc; fsm; fse; has; ftm; fte] =>
       let fs := of_me fsm fse in
       enc_outcome (iw =? 1) fs (open_cbin chns chnc nc (dec_fts has ftm fte) fs)
+  | 2 :: online :: iw :: nc :: fsm :: fse :: has :: ftm :: fte :: size0 :: oflag :: ops =>
+      flat_map (enc_snap (iw =? 1))
+        (history (online =? 1) nc (of_me fsm fse) (dec_fts has ftm fte) size0 (oflag =? 1) (dec_ops ops))
   | _ => [-999]
   end.
 
